@@ -9,8 +9,18 @@ Specification: for the cut after bin `i`, class 1 = bins `≤ i`, class 2 = bins
 `specCrit i = W1 · W2 · (μ1 − μ2)²` (N² times the between-class variance) written directly with
 sums over the two classes.
 
-A second layer models `np.histogram(x, bins=256)` in exact arithmetic: uniform edges between
-min and max, bin = ⌊(x − min)/(max − min) · n⌋ with the maximum placed in the last bin.
+A NaN-carrying copy of the mechanism (`critListN`, `argmaxN`, `otsuHistN`) keeps what floating point does when
+a class is empty: `0/0` is not a number, and `np.argmax` returns the first not-a-number.
+
+Binning, three layers: (1) the specification `binByEdges` - the bin `k` with `e_k ≤ x < e_{k+1}`, the last bin
+closed - for *any* increasing list of edges; (2) exact uniform edges (`uniformEdges`, `binOf`), an instance of (1);
+(3) `np.histogram(x, bins=n)` as NumPy computes it in double precision (`npHistogram`: `np.linspace` edges, the
+index estimate `((x - first) / (last - first)) * n` truncated, the clamp and the two correction steps against the
+edges), written with Lean's `Float`, whose operations are the IEEE-754 binary64 operations of `Float.Model`
+(kernel-reducible, and executed natively by the compiled driver).
+
+NaN in the data: an array is a `List (Option Rat)` (`none` = NaN); `otsuArr` follows the code - the boolean mask
+`x[~np.isnan(x)]`, then `np.histogram`, whose range detection raises on a NaN that is still there.
 `np.histogram` and `np.argmax` are external; they are tied by the correspondence check.
 -/
 namespace Pew.Otsu
@@ -108,8 +118,176 @@ def otsuData (xs : List Rat) (n : Nat := 256) : Rat :=
   let (hist, edges) := histogram xs n
   otsuHist hist edges
 
-/-- `otsu(x, remove_nan=True)`: `x[~np.isnan(x)]` first -/
-def otsuRemoveNan (xs : List (Option Rat)) (n : Nat := 256) : Rat :=
-  otsuData (xs.filterMap id) n
+/-! ## what floating point does with an empty class: `0/0`, and `np.argmax` over NaN -/
+
+/-- a float quotient as far as the mechanism can reach it: `x / 0` is not a number (`none`).  In the mechanism
+the numerator is a sum over the same (empty) class as the denominator, so it is `0/0` = NaN, never ±inf
+(theorem `zero_over_zero`). -/
+def divN (a b : Rat) : Option Rat := if b = 0 then none else some (a / b)
+
+/-- NaN-propagating subtraction -/
+def subN : Option Rat → Option Rat → Option Rat
+  | some a, some b => some (a - b)
+  | _, _ => none
+
+/-- the criterion array as floating point produces it: NaN (`none`) wherever a class is empty -/
+def critListN (hist : List Nat) (cs : List Rat) : List (Option Rat) :=
+  let h : List Rat := hist.map (fun (k : Nat) => (k : Rat))
+  let w1 := cumsum h
+  let w2 := (cumsum h.reverse).reverse
+  let hc := List.zipWith (· * ·) h cs
+  let u1 := List.zipWith divN (cumsum hc) w1
+  let u2 := (List.zipWith divN (cumsum hc.reverse) w2.reverse).reverse
+  let ww := List.zipWith (· * ·) w1 w2.tail
+  let du := List.zipWith subN u1 u2.tail
+  List.zipWith (fun (a : Rat) (d : Option Rat) => d.map (fun d => a * d ^ 2)) ww du
+
+/-- `np.argmax` on an array that may hold NaN: the index of the first NaN if there is one, otherwise the index of
+the first maximum -/
+def argmaxN (l : List (Option Rat)) : Nat :=
+  if l.findIdx (·.isNone) < l.length then l.findIdx (·.isNone) else argmaxFirst (l.map (·.getD 0))
+
+/-- `otsu` from the histogram on, NaN included -/
+def otsuHistN (hist : List Nat) (edges : List Rat) : Rat :=
+  let cs := centres edges
+  cs.getD (argmaxN (critListN hist cs)) 0
+
+/-! ## runs of empty bins: cuts that separate the same two groups -/
+
+/-- the first cut of the run of cuts that `i` belongs to: cuts `i-1` and `i` separate the same two groups of
+values when bin `i` is empty -/
+def classStart (hist : List Nat) : Nat → Nat
+  | 0 => 0
+  | i + 1 => if hist.getD (i + 1) 0 = 0 then classStart hist i else i + 1
+
+/-- the four sums the criterion of cut `i` is computed from - weight and first moment of either class; they are
+entry `i` of `cumsum(hist)`, entry `i + 1` of `cumsum(hist[::-1])[::-1]`, and the same of `hist * bin_centers` -/
+def cutSums (hist : List Nat) (cs : List Rat) (i : Nat) : Rat × Rat × Rat × Rat :=
+  let h : List Rat := hist.map (fun (k : Nat) => (k : Rat))
+  let hc := List.zipWith (· * ·) h cs
+  (sumR (h.take (i + 1)), sumR (h.drop (i + 1)), sumR (hc.take (i + 1)), sumR (hc.drop (i + 1)))
+
+/-! ## binning against a list of edges -/
+
+/-- specification: the bin of `x` is the number of interior edges `≤ x` (for increasing edges the `k` with
+`e_k ≤ x < e_{k+1}`; the last bin is closed, `x = e_n` falls into bin `n - 1`) -/
+def binByEdges (edges : List Rat) (x : Rat) : Nat :=
+  (edges.tail.dropLast.filter (fun e => decide (e ≤ x))).length
+
+/-- counts per bin -/
+def countBins (bins : List Nat) (n : Nat) : List Nat := (List.range n).map (fun k => bins.count k)
+
+def histogramE (edges : List Rat) (xs : List Rat) : List Nat :=
+  countBins (xs.map (binByEdges edges)) (edges.length - 1)
+
+/-- Otsu's threshold of data binned against the given edges -/
+def otsuEdges (edges : List Rat) (xs : List Rat) : Rat := otsuHistN (histogramE edges xs) edges
+
+/-- NumPy's bin index from its floating-point estimate `est = trunc(((x - first) / (last - first)) * n)`:
+`indices[indices == n] -= 1`; `indices[x < edges[indices]] -= 1`;
+`indices[(x >= edges[indices + 1]) & (indices != n - 1)] += 1` -/
+def npBin (edges : List Rat) (n : Nat) (est : Nat) (x : Rat) : Nat :=
+  let i0 := if est = n then est - 1 else est
+  let i1 := if x < edges.getD i0 0 then i0 - 1 else i0
+  if edges.getD (i1 + 1) 0 ≤ x ∧ i1 ≠ n - 1 then i1 + 1 else i1
+
+/-! ## NaN in the data: `otsu(x, remove_nan)` on an array that may hold NaN (`none`) -/
+
+/-- boolean-mask indexing `x[m]` -/
+def maskSelect {α : Type} : List α → List Bool → List α
+  | a :: l, b :: m => if b then a :: maskSelect l m else maskSelect l m
+  | _, _ => []
+
+/-- NaN-propagating reduction (`np.min`, `np.max`): NaN as soon as one operand is NaN -/
+def reduceN (f : Rat → Rat → Rat) : List (Option Rat) → Option Rat
+  | [] => none
+  | a :: l => l.foldl (fun acc v => match acc, v with
+      | some p, some q => some (f p q)
+      | _, _ => none) a
+
+/-- `_get_outer_edges(a, range=None)`: (0, 1) for an empty array, min and max otherwise - `none` stands for the
+`ValueError` ("autodetected range of [nan, nan] is not finite") -, widened by ±1/2 when they coincide -/
+def outerEdges (xs : List (Option Rat)) : Option (Rat × Rat) :=
+  if xs.isEmpty then some (0, 1) else
+    match reduceN min xs, reduceN max xs with
+    | some lo, some hi => some (if lo = hi then (lo - 1 / 2, hi + 1 / 2) else (lo, hi))
+    | _, _ => none
+
+/-- `keep = (a >= first_edge) & (a <= last_edge)`: comparisons with NaN are false -/
+def keepInRange (lo hi : Rat) (xs : List (Option Rat)) : List Rat :=
+  xs.filterMap (fun v => match v with
+    | some q => if lo ≤ q ∧ q ≤ hi then some q else none
+    | none => none)
+
+/-- `np.histogram(x, bins=n)` on an array that may hold NaN (exact uniform edges); `none` = raises -/
+def histogramN (xs : List (Option Rat)) (n : Nat) : Option (List Nat × List Rat) :=
+  (outerEdges xs).map (fun r =>
+    (countBins ((keepInRange r.1 r.2 xs).map (binOf r.1 r.2 n)) n, uniformEdges r.1 r.2 n))
+
+/-- `otsu(x, remove_nan)`; `none` = the call raises (`np.histogram` refuses a range that is not finite) -/
+def otsuArr (removeNan : Bool) (xs : List (Option Rat)) (n : Nat := 256) : Option Rat :=
+  let x := if removeNan then maskSelect xs (xs.map (fun v => !v.isNone)) else xs
+  (histogramN x n).map (fun he => otsuHistN he.1 he.2)
+
+/-! ## `np.histogram(x, bins=n)` in double precision -/
+
+/-- the exact value of a finite double (sign, 11 exponent bits, 52 fraction bits) -/
+def f64ToRat (f : Float) : Rat :=
+  let b := f.toBits.toNat
+  let e := (b / 2 ^ 52) % 2048
+  let m := b % 2 ^ 52
+  let mag : Rat :=
+    if e = 0 then ((m : Nat) : Rat) / ((2 ^ 1074 : Nat) : Rat)
+    else if 1075 ≤ e then (((2 ^ 52 + m) * 2 ^ (e - 1075) : Nat) : Rat)
+    else ((2 ^ 52 + m : Nat) : Rat) / ((2 ^ (1075 - e) : Nat) : Rat)
+  if b / 2 ^ 63 = 1 then -mag else mag
+
+/-- `np.linspace(start, stop, n + 1)`: `step = (stop - start) / n`, `y = arange(n + 1) * step + start` (for a step
+that underflows to zero: `arange(n + 1) / n * (stop - start) + start`), and the last point is set to `stop` -/
+def linspaceF (start stop : Float) (n : Nat) : List Float :=
+  let div := Float.ofNat n
+  let delta := stop - start
+  let step := delta / div
+  let ys := (List.range n).map (fun k =>
+    (if step == 0 then Float.ofNat k / div * delta else Float.ofNat k * step) + start)
+  ys ++ [stop]
+
+/-- `f_indices.astype(np.intp)` of `((x - first_edge) / norm_denom) * n_equal_bins` -/
+def estIndex (first denom : Float) (n : Nat) (x : Float) : Nat :=
+  (((x - first) / denom) * Float.ofNat n).toUInt64.toNat
+
+/-- `a.min()` / `a.max()` of a non-empty double array (NaN propagates) -/
+def minF : List Float → Float
+  | [] => 0
+  | a :: l => l.foldl (fun acc v => if acc.isNaN || v.isNaN then 0 / 0 else if v < acc then v else acc) a
+
+def maxF : List Float → Float
+  | [] => 0
+  | a :: l => l.foldl (fun acc v => if acc.isNaN || v.isNaN then 0 / 0 else if acc < v then v else acc) a
+
+structure NpHist where
+  hist : List Nat
+  edges : List Float
+  /-- the bin of every value, in order -/
+  bins : List Nat
+  /-- the truncated index estimate of every value (what the correction steps start from) -/
+  ests : List Nat
+
+/-- `np.histogram(x, bins=n)` for a double array, as NumPy computes it; an error string where NumPy raises -/
+def npHistogram (xs : List Float) (n : Nat) : Except String NpHist :=
+  let lohi : Float × Float := if xs.isEmpty then (0, 1) else (minF xs, maxF xs)
+  if !(lohi.1.isFinite && lohi.2.isFinite) then .error "ValueError: autodetected range is not finite" else
+  let first := if lohi.1 == lohi.2 then lohi.1 - 0.5 else lohi.1
+  let last := if lohi.1 == lohi.2 then lohi.2 + 0.5 else lohi.2
+  let edges := linspaceF first last n
+  if (List.zipWith (fun a b => decide (a ≥ b)) edges edges.tail).any id then
+    .error "ValueError: Too many bins for data range" else
+  let denom := last - first
+  let er := edges.map f64ToRat
+  let kept := xs.filter (fun x => x ≥ first && x ≤ last)
+  let ests := kept.map (estIndex first denom n)
+  if ests.any (fun e => decide (n < e)) then .error "index estimate out of range" else
+  let bins := List.zipWith (fun e x => npBin er n e (f64ToRat x)) ests kept
+  .ok { hist := countBins bins n, edges := edges, bins := bins, ests := ests }
 
 end Pew.Otsu
